@@ -43,6 +43,8 @@ REPAIR = ["greedy_insertion", "regret_insertion", "sync_aware_insertion"]
 def gen_instance(rng, big=False):
     n = rng.randrange(1, 12 if big else 10)
     nv = rng.randrange(1, 5)
+    if rng.random() < 0.03:  # boundary sizes: no customer at all / no vehicle at all
+        n, nv = rng.choice([(0, nv), (n, 0), (0, 0)])
     multi_p = rng.choice([0.0, 0.2, 0.4, 0.8])
     custs = []
     for i in range(1, n + 1):
@@ -107,7 +109,7 @@ def generate(rng, tier):
             if case["clock"]["per_eval"] == 0.0:
                 case["clock"]["per_eval"] = 0.01
         return case
-    nj = rng.randrange(1, 6)
+    nj = rng.randrange(1, 6) if rng.random() > 0.02 else 0
     nm = rng.randrange(1, 5)
     machines = rng.sample(range(0, 8), nm)  # gaps in machine indices
     jobs = []
@@ -511,7 +513,7 @@ def judge_jobshop(case, r, o: Outcome, label):
     if bad:
         o.violate(PROP, bad[0], f"{label}: {bad[1]}", target="solve_job_shop", family=fam)
         return
-    mk = max(e for _, e in res.solution.values())
+    mk = max((e for _, e in res.solution.values()), default=0)
     if res.objective != mk:
         o.violate(PROP, "objective_mismatch", f"{label}: objective {res.objective!r} but latest end time is {mk!r}", target="solve_job_shop", family=fam)
 
